@@ -61,10 +61,28 @@ func main() {
 	asJSON := flag.Bool("json", false, "print the obligations as JSON and nothing else (used by the thorough tier's sub-runs)")
 	tags := flag.String("tags", "", "build tags")
 	dbg := flag.String("trace", "", "debug: print traces of a function (FuncKey)")
+	ovDir := flag.String("overlay-dir", "", "self-test: directory holding replacement files (same relative paths as under the repo) to analyse instead of the files on disk")
 	var muts multiFlag
 	flag.Var(&muts, "mut", "debug/self-test: in-memory mutation 'relpath|old|new' (repeatable); files on disk are not touched")
 	flag.Parse()
 	overlay, err := buildOverlay(*repo, muts)
+	if err == nil && *ovDir != "" {
+		if overlay == nil {
+			overlay = map[string][]byte{}
+		}
+		err = filepath.Walk(*ovDir, func(path string, info os.FileInfo, werr error) error {
+			if werr != nil || info.IsDir() || !strings.HasSuffix(path, ".go") {
+				return werr
+			}
+			rel, _ := filepath.Rel(*ovDir, path)
+			b, rerr := os.ReadFile(path)
+			if rerr != nil {
+				return rerr
+			}
+			overlay[filepath.Join(*repo, rel)] = b
+			return nil
+		})
+	}
 	if err != nil {
 		if *asJSON {
 			b, _ := json.Marshal(subResult{NotApplic: err.Error()})
